@@ -1,5 +1,6 @@
 import ElfiVerif.Drive.Util
 import ElfiVerif.Model.Rejection
+import ElfiVerif.Model.Budget
 
 namespace ElfiVerif.Drive.C01
 open Lean ElfiVerif.Drive ElfiVerif.Rejection
@@ -88,6 +89,15 @@ def checkH : H := fun j => do
     | some v => some <$> keyOfJson v
   pure (Json.mkObj [("check", Json.bool (checkExtract thr n cons out threshold))])
 
-def handlers : List (String × H) := [("C01.run", runH), ("C01.check", checkH)]
+/-- {"n":…, "p":…, "q":…, "b":…} (quantile = p/q) → {"budget": ceil(n/(p/q)), "batches": ceil(budget/b)} -/
+def qbudgetH : H := fun j => do
+  let n ← getNat j "n"
+  let p ← getNat j "p"
+  let q ← getNat j "q"
+  let b ← getNat j "b"
+  pure (Json.mkObj [("budget", Json.num (JsonNumber.fromNat (quantileBudget n p q))),
+                    ("batches", Json.num (JsonNumber.fromNat (quantileBatches n p q b)))])
+
+def handlers : List (String × H) := [("C01.run", runH), ("C01.check", checkH), ("C01.qbudget", qbudgetH)]
 
 end ElfiVerif.Drive.C01
